@@ -702,6 +702,49 @@ def channel_programs():
     return "\n".join(chunks), status
 
 
+# ---- structural table: every size-changing functional call in direct/nn sits in a function the shape model covers -------
+_SIZE_CALLS = ("F.pad", "F.interpolate", "F.avg_pool2d", "F.avg_pool3d", "F.max_pool2d", "F.max_pool3d", "F.unfold", "F.fold",
+               "F.pixel_shuffle", "F.pixel_unshuffle", "F.adaptive_avg_pool2d", "torch.nn.functional.pad", "nn.functional.pad",
+               "torch.nn.functional.interpolate", "nn.functional.interpolate")
+
+
+def size_sites():
+    """[(file relative to direct/nn, qualified function, call)] for every functional pad / pool / interpolate / fold call under
+    direct/nn (mobilenet excluded: a classifier, not part of the reconstruction zoo)"""
+    rows = []
+    root = REPO / "direct" / "nn"
+    for path in sorted(root.rglob("*.py")):
+        rel = str(path.relative_to(root))
+        if rel.startswith("mobilenet"):
+            continue
+        tree = parse_file(path)
+
+        def visit(node, qual):
+            for child in ast.iter_child_nodes(node):
+                if isinstance(child, (ast.FunctionDef, ast.AsyncFunctionDef, ast.ClassDef)):
+                    visit(child, (qual + "." if qual else "") + child.name)
+                else:
+                    if isinstance(child, ast.Call) and ast.unparse(child.func) in _SIZE_CALLS:
+                        rows.append((rel, qual, ast.unparse(child.func)))
+                    visit(child, qual)
+        visit(tree, "")
+    return rows
+
+
+def size_site_table():
+    try:
+        rows = size_sites()
+        status = {"size_sites": "translated"}
+    except Exception as e:  # noqa: BLE001
+        rows = None
+        status = {"size_sites": f"skipped: {type(e).__name__}: {str(e)[:120]}"}
+    if rows is None:
+        return "/-- SKIPPED -/\ndef size_sites : List (String × String × String) := []\n", status
+    body = ", ".join(f'("{f}", "{q}", "{c}")' for f, q, c in rows)
+    return ("/-- every functional pad / pool / interpolate / fold call under `direct/nn` (file, function, call) -/\n"
+            f"def size_sites : List (String × String × String) :=\n  [{body}]\n"), status
+
+
 def schedule_tables():
     """block schedules of the unrolled zoo models, read from the AST of each `forward` (c17_sched.py)"""
     chunks, status = [], {}
@@ -776,10 +819,12 @@ def _extra_all():
     t2, s2 = forward_programs()
     t3, s3 = schedule_tables()
     t4, s4 = channel_programs()
+    t5, s5 = size_site_table()
+    s1.update(s5)
     s1.update(s2)
     s1.update(s3)
     s1.update(s4)
-    return t1 + "\n" + t2 + "\n" + t4 + "\n" + t3, s1
+    return t1 + "\n" + t5 + "\n" + t2 + "\n" + t4 + "\n" + t3, s1
 
 
 EXTRA["C17"] = _extra_all
